@@ -6,7 +6,7 @@ import json, os, re, shutil, subprocess, sys
 
 OUT = os.path.join(os.path.dirname(os.path.dirname(os.path.abspath(__file__))), "seeded")
 os.makedirs(OUT, exist_ok=True)
-ROUNDS = [("/tmp/stage", "", ""), ("/tmp/stage2", "r2", "r2-"), ("/tmp/stage3", "r3", "r3-")]  # staging dir, result-tag prefix, id prefix
+ROUNDS = [("/tmp/stage", "", ""), ("/tmp/stage2", "r2", "r2-"), ("/tmp/stage3", "r3", "r3-"), ("/tmp/stage4", "r4", "r4-")]  # staging dir, result-tag prefix, id prefix
 JOBS = [(st, rp, ip, prop) for st, rp, ip in ROUNDS if os.path.isdir(st) for prop in sorted(os.listdir(st)) if re.fullmatch(r"C\d\d", prop)]
 for STAGE, RP, IP, prop in JOBS:
     for m in ("m1", "m2"):
